@@ -43,5 +43,46 @@ impl Cell {
 //@use cell.fns Cell::get_tag
 }
 
+// ---- formatting flags (src/fmt_flags.rs)
+//@type src/fmt_flags.rs const FMT_BASE_MASK
+//@type src/fmt_flags.rs const FMT_PREFIX_BIT
+//@type src/fmt_flags.rs const FMT_TAGS_BIT
+//@type src/fmt_flags.rs const FMT_FITSCREEN_BIT
+//@type src/fmt_flags.rs const FMT_UPCASE_BIT
+//@type src/fmt_flags.rs const FMT_ALL_BITS
+//@type src/fmt_flags.rs struct FmtFlags
+impl FmtFlags {
+    // the raw value fits the width argument of format! (std panics above u16::MAX): only the twelve flag bits
+    #[verifier::type_invariant]
+    spec fn inv(&self) -> bool { self.0 <= 0xfff }
+    pub closed spec fn raw(&self) -> usize { self.0 }
+//@use cell.fns FmtFlags::set_base
+//@use cell.fns FmtFlags::base
+//@use cell.fns FmtFlags::set_show_prefix
+//@use cell.fns FmtFlags::show_prefix
+//@use cell.fns FmtFlags::set_show_tags
+//@use cell.fns FmtFlags::set_upcase
+//@use cell.fns FmtFlags::upcase
+//@use cell.fns FmtFlags::show_tags
+//@use cell.fns FmtFlags::fitscreen
+//@use cell.fns FmtFlags::set_fitscreen
+//@use cell.fns FmtFlags::into_raw
+//@use cell.fns FmtFlags::from_raw
+}
+impl Default for FmtFlags {
+//@use cell.fns "impl Default for FmtFlags"::default
+}
+// the `#fmt` tag key (a string-literal constant of src/state.rs): some cell
+#[verifier::external_body] fn verif_fmt_tag_name() -> Cell { unimplemented!() }
+// `format!("{:1$?}", val, w)`: ASSUMED std - panics when the width argument exceeds u16::MAX (Rust >= 1.87), otherwise some text
+#[verifier::external_body] fn verif_format_width(val: &Cell, w: usize) -> (r: String)
+    requires w <= u16::MAX
+{ unimplemented!() }
+impl State {
+//@use cell.fns State::parse_fmt_flags
+//@use cell.fns State::format_cell
+//@use cell.fns State::format_cell_safe
+}
+
 } // verus!
 fn main() {}
